@@ -4,6 +4,7 @@
 
 mod api;
 mod cfgcmd;
+mod choice;
 mod comp;
 mod enc;
 mod fill;
@@ -101,6 +102,7 @@ fn main() {
         "fill" => fill::cmd_fill(&a),
         "cfg07" => cfgcmd::cmd_cfg07(&a),
         "comp" => comp::cmd_comp(&a),
+        "choice" => choice::cmd_choice(&a),
         "api" => api::cmd_api(&a),
         "headers" => headers::cmd_headers(&a),
         "mutate" => mutate::cmd_mutate(&a),
